@@ -185,6 +185,9 @@ def rules(ctx):
     passive(ctx)
     doktorov(ctx)
     fixed_samples(ctx)
+    from . import c19 as _c19
+    _c19.padding_guard(ctx, "C20.fit-guard")
+    ctx.floor("C20.fit-guard", 1)
 
 
 def fixed_samples(ctx, rule="C20.no-capture"):
